@@ -525,4 +525,66 @@ theorem src_hijri_table_roundtrip_partial (jd : Int) (hseam : jd < 2453442 ∨ 2
   refine ⟨_, key, ?_⟩
   rw [hijriT_ToJd_eq y m d m1 (by omega), hrt]
 
+/-- C02 (partial, as for the model) about the translated table-mode code: except after the five day numbers of the
+    two seams and at the four ill-formed days, the date of day jd + 1 is the successor of the date of day jd under
+    today's `GetMonthLen` with the month table on -/
+theorem src_hijri_table_succ_partial (jd : Int)
+    (hne : jd ≠ 2453441 ∧ jd ≠ 2453469 ∧ jd ≠ 2459702 ∧ jd ≠ 2459731 ∧ jd ≠ 2459761)
+    (hwf0 : jd ≠ 2453470 ∧ jd ≠ 2459703 ∧ jd ≠ 2459732 ∧ jd ≠ 2459762)
+    (hwf1 : jd + 1 ≠ 2453470 ∧ jd + 1 ≠ 2459703 ∧ jd + 1 ≠ 2459732 ∧ jd + 1 ≠ 2459762) :
+    ∃ y m d L, hijriT_JdTo hijriTable jd = some ⟨y, m, d⟩ ∧ hijriT_GetMonthLen hijriTable y m = some L ∧
+      hijriT_JdTo hijriTable (jd + 1) =
+        some (if d < L then ⟨y, m, d + 1⟩ else if m < 12 then ⟨y, m + 1, 1⟩ else ⟨y + 1, 1, 1⟩) := by
+  have hs := HijriT.hijri_table_succ_partial jd hne
+  have w0 := HijriT.hijri_table_wf_partial jd hwf0
+  have w1 := HijriT.hijri_table_wf_partial (jd + 1) hwf1
+  have k0 := hijriT_JdTo_eq jd
+  have k1 := hijriT_JdTo_eq (jd + 1)
+  have hml := fun h1 h2 => monthLenT_lt (HijriT.jdToT jd).year (HijriT.jdToT jd).month h1 h2
+  have hml1 := fun h1 h2 => monthLenT_lt (HijriT.jdToT (jd + 1)).year (HijriT.jdToT (jd + 1)).month h1 h2
+  revert hs w0 w1 k0 k1 hml hml1
+  generalize HijriT.jdToT jd = a
+  generalize HijriT.jdToT (jd + 1) = b
+  obtain ⟨y, m, d⟩ := a
+  obtain ⟨y1, m1, d1⟩ := b
+  intro hs w0 w1 k0 k1 hml hml1
+  unfold HijriT.wfT at w0 w1
+  simp only [Bool.and_eq_true, decide_eq_true_eq] at w0 w1
+  obtain ⟨⟨⟨a1, a2⟩, a3⟩, a4⟩ := w0
+  obtain ⟨⟨⟨b1, b2⟩, b3⟩, b4⟩ := w1
+  have hl := hml a1 a2
+  have hl1 := hml1 b1 b2
+  simp only at k0 k1 hl hl1 a4 b4
+  rw [GoSem.u8_id (x := m) (by omega) (by omega), GoSem.u8_id (x := d) (by omega) (by omega)] at k0
+  rw [GoSem.u8_id (x := m1) (by omega) (by omega), GoSem.u8_id (x := d1) (by omega) (by omega)] at k1
+  have hg := hijriT_GetMonthLen_eq y m a1 a2
+  have hml0 : 0 ≤ HijriT.monthLenT y m := by omega
+  rw [GoSem.u8_id (x := HijriT.monthLenT y m) hml0 hl] at hg
+  unfold HijriT.succT at hs
+  simp only at hs
+  refine ⟨y, m, d, HijriT.monthLenT y m, k0, hg, ?_⟩
+  rw [k1]
+  generalize HijriT.monthLenT y m = L at *
+  by_cases c1 : d < L
+  · rw [if_pos c1] at hs ⊢
+    have e1 := congrArg (fun x => x.year) hs
+    have e2 := congrArg (fun x => x.month) hs
+    have e3 := congrArg (fun x => x.day) hs
+    simp only at e1 e2 e3
+    rw [e1, e2, e3]
+  · rw [if_neg c1] at hs ⊢
+    by_cases c2 : m < 12
+    · rw [if_pos c2] at hs ⊢
+      have e1 := congrArg (fun x => x.year) hs
+      have e2 := congrArg (fun x => x.month) hs
+      have e3 := congrArg (fun x => x.day) hs
+      simp only at e1 e2 e3
+      rw [e1, e2, e3]
+    · rw [if_neg c2] at hs ⊢
+      have e1 := congrArg (fun x => x.year) hs
+      have e2 := congrArg (fun x => x.month) hs
+      have e3 := congrArg (fun x => x.day) hs
+      simp only at e1 e2 e3
+      rw [e1, e2, e3]
+
 end Starcal.SrcTie
